@@ -1480,6 +1480,15 @@ class Interp:
                     return a >> b
             except ZeroDivisionError:
                 raise RaiseSig(ExcVal("ZeroDivisionError", node=node))
+        if isinstance(a, MaskLoad) or isinstance(b, MaskLoad):
+            # elementwise arithmetic on rows selected by a data-dependent mask: operate on every row, keep the mask
+            ma, mb = (a if isinstance(a, MaskLoad) else None), (b if isinstance(b, MaskLoad) else None)
+            if ma is not None and mb is not None and keyof(ma.mask) != keyof(mb.mask):
+                raise Unsupported("arithmetic on selections under different data-dependent masks", node)
+            for x in (a, b):
+                if isinstance(x, np.ndarray) and x.ndim > 0:
+                    raise Unsupported("a dense array combined with a data-dependent selection (lengths depend on the data)", node)
+            return MaskLoad(self.binop(op, ma.base if ma is not None else a, mb.base if mb is not None else b, node, env), (ma or mb).mask)
         if isinstance(a, MaskedArray) or isinstance(b, MaskedArray):
             return self.np.masked_binop(name, a, b, node)
         if isinstance(a, complex) or isinstance(b, complex):
@@ -1531,8 +1540,36 @@ class Interp:
 
     def ex_Subscript(self, n, env):
         base = self.ev(n.value, env)
+        if isinstance(base, ExtRef) and base.path == "numpy.mgrid":
+            return self._mgrid(n, env)
         idx = self.index(n.slice, env)
         return self.subscript(base, idx, n)
+
+    def _mgrid(self, n, env):
+        """np.mgrid[a:b:k*1j, ...]: k evenly spaced points from a to b inclusive along each axis (exact values)."""
+        sls = n.slice.elts if isinstance(n.slice, ast.Tuple) else [n.slice]
+        axes = []
+        for sl in sls:
+            if not (isinstance(sl, ast.Slice) and sl.lower is not None and sl.upper is not None and sl.step is not None):
+                raise Unsupported("np.mgrid without explicit start:stop:step", n)
+            lo, hi = lift(cell(self.ev(sl.lower, env))), lift(cell(self.ev(sl.upper, env)))
+            st = sl.step
+            cnt = None
+            if isinstance(st, ast.BinOp) and isinstance(st.op, ast.Mult):
+                for a, b in ((st.left, st.right), (st.right, st.left)):
+                    if isinstance(b, ast.Constant) and isinstance(b.value, complex) and b.value == 1j:
+                        v = self.ev(a, env)
+                        v = cell(v) if not isinstance(v, (int, IntSym)) else v
+                        cnt = int(v.cval()) if isinstance(v, E) and v.is_int() else (int(v) if isinstance(v, int) else None)
+            if cnt is None or cnt < 1:
+                raise Unsupported("np.mgrid step that is not <count>*1j with a concrete count", n)
+            axes.append([lo if cnt == 1 else lo + (hi - lo) * alg.Fr(k, cnt - 1) for k in range(cnt)])
+        shape = tuple(len(a) for a in axes)
+        out = np.empty((len(axes),) + shape, dtype=object)
+        for idx in np.ndindex(*shape):
+            for d in range(len(axes)):
+                out[(d,) + idx] = axes[d][idx[d]]
+        return out if len(axes) > 1 else out[0]
 
     def subscript(self, base, idx, n=None):
         if isinstance(base, Opaque):
